@@ -1924,11 +1924,12 @@ def extra_checks(rng, tier, cov):
 
 
 def nontrivial(case, got):
+    if case['_op'] == 'xhist':        # at least two steps on different kinds of collection with more than one group / element
+        kinds = {st['K'] for st, v in zip([st for st in case['xsteps'] if 'K' in st], got.get('m', [])) if isinstance(v, list) and len(v) > 1}
+        return 'xhist' if len(kinds) >= 2 else None
     if isinstance(got, dict):
         return None
     op = case['_op']
-    if op == 'xhist':
-        return 'xhist' if sum(1 for v in got['m'] if isinstance(v, list) and len(v) > 1) >= 2 else None
     if op in ('hist', 'hattach'):
         return op if len(got) >= 2 and all(isinstance(v, list) for v in got) else None
     if op == 'filter':
@@ -2173,7 +2174,7 @@ def python_snippet(case):
     return s + ('print(x.d)' if case.get('via') == 'd' else 'print(x.todict())')
 
 
-LEVEL_TEXT = ('Machine-checked Coq theorems (51, all closed) about an executable model of sugar\'s collection helpers, for all lists: '
+LEVEL_TEXT = ('Machine-checked Coq theorems (52, all closed) about an executable model of sugar\'s collection helpers, for all lists: '
               'filter = List.filter of the conjunction of the conditions (order kept, receiver replaced only with inplace; aliases '
               'max/min/in/lowerin/lowereq against the operator table regenerated from the code; order of the conditions irrelevant; in / '
               'lowerin / contains = equality search in a list or tuple, containment in a str, never prefix or lower-casing of the '
@@ -2195,7 +2196,8 @@ LEVEL_TEXT = ('Machine-checked Coq theorems (51, all closed) about an executable
               'answer (other_place_irrelevant); groupby and sort use EXACTLY the values at the places of their keys: collections agreeing '
               'position by position on identity and on those values get the same nested grouping / the same order '
               '(groupby_reads_only_place, sort_reads_only_place, filter_reads_only_place, by induction over keys / conditions and lists); BioMatchList.groupby(name) puts under v '
-              'exactly the matches whose attribute is v (matchlist_groupby_attr). The model is tied to /repo by '
+              'exactly the matches whose attribute is v (matchlist_groupby_attr); a history across kinds has no state (xhist_stateless: each '
+              'answer is that of the step alone, another order permutes the answers). The model is tied to /repo by '
               'differential testing of the public methods on every run, including multi-call histories on one object that probe '
               'aliasing between receiver, operands and results, and histories across BioMatchList / FeatureList / BioBasket objects in one '
               'process (same key names, every place filled with a different value, find_orfs / matchall interleaved).')
